@@ -1,6 +1,8 @@
-from .common import *
+from .common2 import *
 def run(tier, a=None):
     specs = [{'src': 'h_c06.cpp', 'defs': ['TAG=' + t]} for t in tags(tier)]
-    return simple('C06', tier, a, specs,
-        'EXACT (generic branches): smallAdj(t)s = vee[hat t,hat s]; hat(Adj(X)s) M(X) = M(X) hat(s); Adj(XY)=Adj(X)Adj(Y); ljac(t)+d/ds ljac(st)|_1 = Adj(exp t) (ODE characterisation of the series, derivative via dual numbers through the real ljac); d/ds Adj(exp(st)) = smallAdj(t) Adj(exp(st)); rjac(t)=ljac(-t); rjacinv*rjac = I, ljacinv*ljac = I; Adj(exp t) rjac = ljac.',
-        ['no magnitude bound on generic branches (real arithmetic)', 'groups: ' + ','.join(tags(tier))])
+    specs += [{'src': 'h_c06.cpp', 'defs': ['TAG=' + t, 'ZERO_ROT'], 'filter': 'c06_(ljac_ode|adj_ode|rjac|inverses|adjexp).*'} for t in tags(tier) if not t.startswith('R')]
+    tr = [{'src': 'h_trunc.cpp', 'defs': ['TAG=' + t], 'filter': 'tr_jacs.*'} for t in tags(tier) if not t.startswith('R')]
+    return combined('C06', tier, a, specs, tr,
+        'EXACT (generic branches, and Taylor branches at exactly zero rotation with symbolic linear parts): smallAdj(t)s = vee[hat t,hat s]; hat(Adj(X)s) M(X) = M(X) hat(s); Adj(XY)=Adj(X)Adj(Y); ljac(t)+d/ds ljac(st)|_1 = Adj(exp t) (ODE characterisation of the series, derivative via dual numbers through the real ljac); d/ds Adj(exp(st)) = smallAdj(t) Adj(exp(st)); rjac(t)=ljac(-t); rjacinv*rjac = I, ljacinv*ljac = I (rotation below pi); Adj(exp t) rjac = ljac. TRUNC: rjac/ljac/rjacinv/ljacinv on the Taylor region are within 1e-6*max(1,B) of the generic closed forms.',
+        ['generic branches: no magnitude bound', 'inverse Jacobians: rotation magnitude below pi', 'Taylor region: linear components bounded by B in {1,1e6}, tolerance 1e-6*max(1,B)', 'groups: ' + ','.join(tags(tier))])
